@@ -56,6 +56,8 @@ struct Outcome {
   // returns true if the operation must stop evaluating its oracle
   bool fail(const std::string& c, const std::string& d);
 };
+// a clause that several properties state: reported under the running check's own property if it is one of `also`
+std::string owned(const std::string& clause, std::initializer_list<const char*> also);
 #define CHECK_FAIL(cl, det)                                                                                            \
   do {                                                                                                                 \
     if (o.fail((cl), (det)))                                                                                           \
